@@ -2535,11 +2535,15 @@ PPL::Polyhedron::simplify_using_context_assign(const Polyhedron& y) {
             sat_i.set(j);
           }
         }
+        if (sat_i.empty() && i < y_cs_num_ineq) {
+          // An inequality of y_cs masking an equality of the intersection:
+          // it cannot be added to the result (which has to contain x);
+          // the inequalities of x_cs it follows from are all kept below.
+          continue;
+        }
         if (sat_i.empty() && num_non_redundant_eq < needed_non_redundant_eq) {
           // `non_redundant_ineq_i' is actually masking an equality
           // and we are still looking for some masked inequalities.
-          // Iteration goes downwards, so the inequality comes from x_cs.
-          PPL_ASSERT(i >= y_cs_num_ineq);
           // Check if the equality is independent in eqs.
           Constraint masked_eq = non_redundant_ineq_i;
           masked_eq.set_is_line_or_equality();
@@ -2557,14 +2561,15 @@ PPL::Polyhedron::simplify_using_context_assign(const Polyhedron& y) {
             non_redundant_eq.insert(non_redundant_ineq_i);
           }
         }
-        else if (sat_i.empty() && i >= y_cs_num_ineq) {
+        else if (sat_i.empty()) {
           // Same as above: this inequality of x_cs may be needed, together
           // with those already selected, to obtain a masked equality.
           non_redundant_eq.insert(non_redundant_ineq_i);
         }
       }
-      // Here we have already found all the needed (masked) equalities.
-      PPL_ASSERT(num_non_redundant_eq == needed_non_redundant_eq);
+      // Here we have already found all the needed (masked) equalities,
+      // but for those masked by inequalities of y_cs.
+      PPL_ASSERT(num_non_redundant_eq <= needed_non_redundant_eq);
 
       drop_redundant_inequalities(non_redundant_ineq_p, x.topology(),
                                   sat, z_cs_num_eq);
